@@ -11,7 +11,8 @@ from hypothesis import strategies as st
 from harness import calib, gen, models
 from harness.common import Ctx, Inconclusive, drive, guard, watchdog
 
-RULE = ("Hypothesis draws a round-robin configuration as in C01 (nine sampler kinds, five losses) and n; for n <= 4 (quick) / "
+RULE = ("Hypothesis draws a round-robin configuration as in C01 (nine sampler kinds, five losses; in a fifth of the cases a user "
+        "loss with memory, whose state is part of the checkpoint) and n; for n <= 4 (quick) / "
         "n <= 5 (thorough) EVERY cut pattern is enumerated - each of the n-1 batch boundaries is 'no cut', 'plain second "
         "calibrate() call' or 'checkpoint -> restore_from_checkpoint -> continue on the restored object' (3^(n-1) patterns) - "
         "for larger n (to 8) patterns are drawn; oracle = byte identity with the uninterrupted twin (five arrays + final return "
@@ -36,6 +37,10 @@ def cases(draw, max_enum):
             s["restarts"] = 0
         if s["kind"] in ("gp", "rf", "xgb"):
             s["pool"] = min(s.get("pool", 20), 30)
+    if draw(st.integers(0, 4)) == 0:
+        # a user loss with memory (running normalisation): its state travels with the checkpoint like everything else
+        cfg["loss"] = {"kind": "adaptive_stub"}
+        cfg.pop("sim_length", None)
     big = draw(st.integers(0, 3)) == 0
     n = draw(st.integers(max_enum + 1, 8)) if big else draw(st.integers(2, max_enum))
     cfg["max_batches"] = n
@@ -82,7 +87,7 @@ def check_resume(ctx: Ctx, case):
         for k, pat in enumerate(pats):
             one = dict(case, patterns=[pat])
             at_cut = sorted({kinds[(i + 1) % len(kinds)] for i, c in enumerate(pat) if c == 2})
-            ctx.count(sub, one, any(k_ in STATEFUL for k_ in at_cut), [f"n={n}", f"restores={sum(c == 2 for c in pat)}"] +
+            ctx.count(sub, one, any(k_ in STATEFUL for k_ in at_cut), [f"n={n}", f"restores={sum(c == 2 for c in pat)}", f"loss={cfg['loss']['kind']}"] +
                       [f"restore-before-{k_}" for k_ in at_cut])
             if not any(pat):
                 continue
